@@ -208,6 +208,9 @@ fn scratch(h: &H) -> BTreeMap<String, String> {
     std::fs::write(ures.join("u.md"), "```geodesy:only\naddone inv | noop\n```\n").ok();
     expect.insert("u:only".to_string(), "addone inv | noop".to_string());
     std::fs::write(ures.join("u_file.resource"), "noop | addone").ok();
+    // (a file of a colliding name in the user directory: the local register is found first)
+    std::fs::write(ures.join("f_reg.resource"), "noop | noop | noop").ok();
+    std::fs::write(ures.join("f_last.resource"), "noop").ok();
     expect.insert("u:file".to_string(), "noop | addone".to_string());
     std::env::set_var("XDG_DATA_HOME", &user);
     let _ = std::env::set_current_dir(&dir);
